@@ -2743,9 +2743,65 @@ def _launcher_handover(rep, fs):
                server, hooks[0])
 
 
+def _page_body_total(rep, fs):
+    """R20.l: the render factory the failsafe application is built with (found by role: the ``render_factory`` argument of
+    the Application constructed by create_app or by a function of the tree it calls) produces render functions that hand
+    bytes from a total encoding to ``Response``."""
+    from . import bodytext
+    repo = rep.repo
+    flaw = repo.mod('clastic.flaw')
+    ca = flaw.func('create_app')
+
+    def class_of(fi, e, depth=0):
+        """the class of the tree an expression evaluates to an instance of (through locals and returning functions)"""
+        if depth > 5 or e is None:
+            return None
+        if isinstance(e, ast.Name):
+            vals = [s.value for s in ast.walk(fi.node) if isinstance(s, ast.Assign) and len(s.targets) == 1 and
+                    isinstance(s.targets[0], ast.Name) and s.targets[0].id == e.id]
+            found = set(class_of(fi, v, depth + 1) for v in vals)
+            return found.pop() if len(found) == 1 else None
+        if isinstance(e, ast.Call):
+            r = repo.resolve_class(fi.mod, e.func) if isinstance(e.func, (ast.Name, ast.Attribute)) else None
+            if r is not None and not isinstance(r, str) and hasattr(r, 'methods'):
+                return r
+            if isinstance(e.func, ast.Name):
+                kind, m, obj = repo.resolve(fi.mod, e.func.id)
+                if kind == 'func' and m is not None and not m.external:
+                    found = set(class_of(obj, x.value, depth + 1) for x in returns_of(obj) if x.value is not None)
+                    return found.pop() if len(found) == 1 else None
+        return None
+
+    def factories(fi, depth=0, seen=None):
+        seen = seen if seen is not None else set()
+        if fi.key in seen or depth > 3:
+            return []
+        seen.add(fi.key)
+        out = []
+        for n in ast.walk(fi.node):
+            if not isinstance(n, ast.Call):
+                continue
+            r = repo.resolve_class(fi.mod, n.func) if isinstance(n.func, (ast.Name, ast.Attribute)) else None
+            if r is not None and not isinstance(r, str) and hasattr(r, 'methods') and repo.is_subclass(r, 'Application'):
+                v = argn(n, 'render_factory', 3)
+                if v is not None:
+                    out.append(class_of(fi, v))
+            elif isinstance(n.func, ast.Name):
+                kind, m, obj = repo.resolve(fi.mod, n.func.id)
+                if kind == 'func' and m is not None and not m.external and m is fi.mod:
+                    out.extend(factories(obj, depth + 1, seen))
+        return out
+    found = factories(ca)
+    if not found or any(c is None for c in found) or len(set(found)) != 1 or found[0].mod.external:
+        raise AnalysisError('create_app: the render factory of the failsafe application was not identified')
+    cls = found[0]
+    quals = sorted(q for q, fi in cls.mod.functions.items() if q.startswith(cls.qualname + '.') and q.count('.') == cls.qualname.count('.') + 1)
+    bodytext.check_render_bodies(rep, 'R20.l', [(cls.mod.name, quals)], 1)
+
+
 def run(rep):
     repo = rep.repo
-    rep.decide('R20.a names resolve; R20.b parser cannot prevent the page, route/template/resource agreement; '
+    rep.decide('R20.l the page is handed to the response as bytes from a total encoding; R20.a names resolve; R20.b parser cannot prevent the page, route/template/resource agreement; '
                'R20.c template auto-escapes every reference; R20.d parsed branch reachable and fed; '
                'R20.e the launcher hands over the collected text and file list; '
                'R20.f the exception line is searched from the end of the text and the search covers the last line; '
@@ -2779,3 +2835,6 @@ def run(rep):
     _group(rep, c20_inert.function_level_imports, rep, fs)
     from . import c20_files
     _group(rep, c20_files.file_names_total, rep, fs)
+    rep.rule('R20.l', 'the page text, built from arbitrary error text and file names, is handed to the response as bytes from an '
+                      'encoding that cannot fail (werkzeug encodes a str body strictly: a lone surrogate would turn the page into a 500)')
+    _group(rep, _page_body_total, rep, fs)
